@@ -66,7 +66,7 @@ def case(ctx, i):
     for kind_, ent in rep.interfaces(tags=("C",)):
         if e.entity and e.entity in ent.full_text():
             listed = True
-        elif e.kind == "param-top-cv" and any(ent.mentions(a) for a in e.affected) and "const" in ent.full_text():
+        elif e.kind == "param-top-cv" and any(ent.mentions(a) for a in e.affected) and ("const" in ent.full_text() or "volatile" in ent.full_text()):
             listed = True
     if not listed:
         r.violate("oracle:C07:harmless-not-listed:" + e.kind, "--harmless does not list the change (%s); exit %s" % (what, res2.rc), run=res2.brief(), expect=e.to_json())
